@@ -5,31 +5,35 @@
 EXTENDS Integers, Sequences, FiniteSets, TLC, Json
 
 CONSTANTS Names, Clients, Cap, TTL, Validity, MaxClock,
+          Margin,          \* a cached leaf is used only if it stays valid for this long (0: as found - up to the instant it expires)
           NoReverify,      \* mutant: a cache hit is returned without Leaf.Verify
           KeyIgnoresName   \* mutant: every name shares one cache slot (e.g. key derived wrongly)
 
 NoCert == [name |-> "-", nb |-> 0, na |-> -1, at |-> 0]
-VARIABLES clock, cache, lru, pc, want, cert, servedOK, hist
-vars == <<clock, cache, lru, pc, want, cert, servedOK, hist>>
+VARIABLES clock, cache, lru, pc, want, cert, servedOK, hist,
+          aged      \* the handshakes during which the clock has moved on since the leaf was chosen
+vars == <<clock, cache, lru, pc, want, cert, servedOK, hist, aged>>
 
 Key(n) == IF KeyIgnoresName THEN CHOOSE k \in Names : TRUE ELSE n
 ValidFor(c, n, t) == c.name = n /\ c.nb <= t /\ t <= c.na
 
 Init == /\ clock = 0 /\ cache = [n \in Names |-> NoCert] /\ lru = <<>>
         /\ pc = [c \in Clients |-> "idle"] /\ want = [c \in Clients |-> CHOOSE n \in Names : TRUE]
-        /\ cert = [c \in Clients |-> NoCert] /\ servedOK = TRUE /\ hist = <<>>
+        /\ cert = [c \in Clients |-> NoCert] /\ servedOK = TRUE /\ hist = <<>> /\ aged = {}
 
-\* ASSUMPTION (stated, and respected by harness schedules): from the instant a handshake has
-\* decided which leaf to use until it has served it, less than one clock unit passes; i.e.
-\* validity and TTL are long compared with one handshake.  freelru expires lazily on access.
+\* ASSUMPTION (stated, and respected by harness schedules): from the instant a handshake has decided which leaf to
+\* use until the client has verified it, at most one clock unit passes; i.e. validity and TTL are long compared with
+\* one handshake - but a handshake takes time, and the clock may move on once while the leaf is on its way (the
+\* handshakes in `aged`).  freelru expires lazily on access.
 Tick == /\ clock < MaxClock /\ clock' = clock + 1
-        /\ \A c \in Clients : pc[c] \in {"idle", "lookup", "verify"}
+        /\ \A c \in Clients : pc[c] \in {"idle", "lookup", "verify"} \/ (pc[c] = "serve" /\ c \notin aged)
+        /\ aged' = aged \cup {c \in Clients : pc[c] = "serve"}
         /\ hist' = Append(hist, [a |-> "tick", c |-> "-", n |-> "-"])
         /\ UNCHANGED <<cache, lru, pc, want, cert, servedOK>>
 
 Begin(c, n) == /\ pc[c] = "idle" /\ pc' = [pc EXCEPT ![c] = "lookup"] /\ want' = [want EXCEPT ![c] = n]
                /\ hist' = Append(hist, [a |-> "handshake", c |-> ToString(c), n |-> n])
-               /\ UNCHANGED <<clock, cache, lru, cert, servedOK>>
+               /\ UNCHANGED <<clock, cache, lru, cert, servedOK, aged>>
 \* c.certs.Get(hostname)
 Lookup(c) == /\ pc[c] = "lookup"
              /\ LET k == Key(want[c])
@@ -38,15 +42,15 @@ Lookup(c) == /\ pc[c] = "lookup"
                 IF live THEN /\ cert' = [cert EXCEPT ![c] = e]
                              /\ pc' = [pc EXCEPT ![c] = IF NoReverify THEN "serve" ELSE "verify"]
                         ELSE /\ pc' = [pc EXCEPT ![c] = "generate"] /\ UNCHANGED cert
-             /\ UNCHANGED <<clock, cache, lru, want, servedOK, hist>>
+             /\ UNCHANGED <<clock, cache, lru, want, servedOK, hist, aged>>
 \* tlsc.Leaf.Verify(DNSName: hostname, Roots: ca): name and validity window at this instant
 Verify(c) == /\ pc[c] = "verify"
-             /\ pc' = [pc EXCEPT ![c] = IF ValidFor(cert[c], want[c], clock) THEN "serve" ELSE "generate"]
-             /\ UNCHANGED <<clock, cache, lru, want, cert, servedOK, hist>>
+             /\ pc' = [pc EXCEPT ![c] = IF ValidFor(cert[c], want[c], clock) /\ clock + Margin <= cert[c].na THEN "serve" ELSE "generate"]
+             /\ UNCHANGED <<clock, cache, lru, want, cert, servedOK, hist, aged>>
 \* x509.CreateCertificate with NotBefore/NotAfter = now -/+ validity and the SAN for this name
 Generate(c) == /\ pc[c] = "generate" /\ pc' = [pc EXCEPT ![c] = "add"]
                /\ cert' = [cert EXCEPT ![c] = [name |-> want[c], nb |-> clock - Validity, na |-> clock + Validity, at |-> clock]]
-               /\ UNCHANGED <<clock, cache, lru, want, servedOK, hist>>
+               /\ UNCHANGED <<clock, cache, lru, want, servedOK, hist, aged>>
 \* c.certs.Add(hostname, tlsc) with LRU eviction at capacity
 Add(c) == /\ pc[c] = "add" /\ pc' = [pc EXCEPT ![c] = "serve"]
           /\ LET k == Key(want[c])
@@ -55,10 +59,11 @@ Add(c) == /\ pc[c] = "add" /\ pc' = [pc EXCEPT ![c] = "serve"]
              /\ lru' = IF Len(l1) > Cap THEN Tail(l1) ELSE l1
              /\ cache' = [n \in Names |-> IF n = k THEN [cert[c] EXCEPT !.at = clock]
                                           ELSE IF Len(l1) > Cap /\ n = ev THEN NoCert ELSE cache[n]]
-          /\ UNCHANGED <<clock, want, cert, servedOK, hist>>
+          /\ UNCHANGED <<clock, want, cert, servedOK, hist, aged>>
 \* GetCertificate returns: the client verifies what it gets, for the name it asked for, now.
 Serve(c) == /\ pc[c] = "serve" /\ pc' = [pc EXCEPT ![c] = "idle"]
             /\ servedOK' = (servedOK /\ ValidFor(cert[c], want[c], clock))
+            /\ aged' = aged \ {c}
             /\ UNCHANGED <<clock, cache, lru, want, cert, hist>>
 
 CNext(c) == (\E n \in Names : Begin(c, n)) \/ Lookup(c) \/ Verify(c) \/ Generate(c) \/ Add(c) \/ Serve(c)
@@ -93,7 +98,7 @@ MExpect(c) == [ intercepted |-> ~c.excluded,
 EmitCases == \A c \in MCases : PrintT(ToJson([c |-> c, exp |-> MExpect(c)]))
 EmitOnce == (clock = 0 /\ hist = <<>>) => EmitCases
 Emit == hist # <<>> => PrintT(ToJson([h |-> hist]))
-VIEW_ == <<clock, cache, lru, pc, want, cert, servedOK>>
+VIEW_ == <<clock, cache, lru, pc, want, cert, servedOK, aged>>
 
 ServedValid == servedOK                                   \* C07: right name, inside validity
 CacheHoldsOwnName == \A n \in Names : cache[n] # NoCert => (KeyIgnoresName \/ cache[n].name = n)
